@@ -472,3 +472,68 @@ pub fn curated_k3() -> Vec<(&'static str, Case)> {
     }),
   ]
 }
+
+// ---------------------------------------------------------------------------------------------------------------
+// Exhaustive small-scope histories over curated hostile shapes
+// ---------------------------------------------------------------------------------------------------------------
+
+/// Hostile program shapes (well-formed). Each is driven through ALL histories up to a small length.
+pub fn shapes() -> Vec<Program> {
+  let mut v = Vec::new();
+  // 0: require the generator, read the generated resource twice (edge re-insertion); generator writes a function of a source
+  v.push(Program {
+    tasks: vec![td(vec![rg(1), rd(0), rg(1)], 2, 2, OutFn::Hash), td(vec![rd(0), wr(1, Expr::LastMod(3))], 2, 2, OutFn::Const(0))],
+    n_res: 2, owner: vec![None, Some(1)], label: "shape/read-generated-twice".into() });
+  // 1: diamond with an early cut-off (Mod(2) output) on one side
+  v.push(Program {
+    tasks: vec![td(vec![rq(1), rq(2)], 1, 4, OutFn::Hash), td(vec![rq(3)], 1, 4, OutFn::Mod(2)), td(vec![rq(3)], 1, 4, OutFn::Hash), td(vec![rd(0)], 1, 4, OutFn::Mod(3))],
+    n_res: 1, owner: vec![None], label: "shape/diamond-cutoff".into() });
+  // 2: conditional require of a task never seen before, deep chain behind it
+  v.push(Program {
+    tasks: vec![td(vec![rd(0), Op::SkipIf { pred: Pred::LastEq(0), n: 1 }, rq(1)], 2, 3, OutFn::Hash), td(vec![rq(2)], 2, 3, OutFn::Hash), td(vec![rd(1)], 2, 3, OutFn::Hash)],
+    n_res: 2, owner: vec![None, None], label: "shape/conditional-new-task".into() });
+  // 3: conditional writer, reader through ReadGen, second reader with a coarse (Exists) checker
+  {
+    let mut t0 = td(vec![rg(1)], 2, 3, OutFn::Hash);
+    let mut t1 = td(vec![rg(1), rd(0)], 2, 3, OutFn::Hash);
+    t1.rkind[1] = Kind::Exists;
+    t0.tkind[2] = OKind::Always;
+    let t2 = td(vec![rd(0), Op::SkipIf { pred: Pred::LastEq(1), n: 1 }, wr(1, Expr::LastMod(3))], 2, 3, OutFn::Const(5));
+    v.push(Program { tasks: vec![t0, t1, t2], n_res: 2, owner: vec![None, Some(2)], label: "shape/conditional-writer-coarse-reader".into() });
+  }
+  // 4: dynamic require target chosen by a source value, both targets read the same source
+  v.push(Program {
+    tasks: vec![td(vec![rd(0), Op::Require { sel: Sel::Dyn(vec![1, 2]), ok: None }], 1, 3, OutFn::Hash), td(vec![rd(0)], 1, 3, OutFn::Mod(2)), td(vec![rd(0)], 1, 3, OutFn::Hash)],
+    n_res: 1, owner: vec![None], label: "shape/dynamic-require".into() });
+  // 5: chain of two generated resources with declared (create_writer/written_to) writes and a parity reader
+  {
+    let mut t0 = td(vec![rg(2)], 3, 3, OutFn::Hash);
+    t0.rkind[2] = Kind::Parity;
+    let t1 = td(vec![rg(1), Op::Write { res: 2, expr: Expr::LastMod(4), via: Via::Declared, kind: None, fail: Fail::None }], 3, 3, OutFn::Const(1));
+    let t2 = td(vec![rd(0), Op::Write { res: 1, expr: Expr::LastMod(3), via: Via::Declared, kind: None, fail: Fail::None }], 3, 3, OutFn::Const(2));
+    v.push(Program { tasks: vec![t0, t1, t2], n_res: 3, owner: vec![None, Some(2), Some(1)], label: "shape/generated-chain-declared".into() });
+  }
+  v
+}
+
+/// The step alphabet of a shape: external changes of every resource to None/0/1/2, a top-down session per root, a
+/// bottom-up build, and a bottom-up build followed by a require of task 0.
+pub fn shape_alphabet(p: &Program) -> Vec<Step> {
+  let mut a = Vec::new();
+  for r in 0..p.n_res as u32 { for v in [None, Some(0), Some(1), Some(2)] { a.push(Step::Set(r, v)); } }
+  for t in 0..p.n_tasks() as u32 { a.push(Step::TopDown(vec![t])); }
+  a.push(Step::BottomUp(vec![]));
+  a.push(Step::BottomUp(vec![0]));
+  a
+}
+
+pub fn shape_case(shape: usize, len: usize, mut idx: u64) -> Case {
+  let prog = shapes()[shape].clone();
+  let alpha = shape_alphabet(&prog);
+  let mut steps = vec![Step::TopDown(vec![0])];
+  for _ in 0..len { steps.push(alpha[(idx % alpha.len() as u64) as usize].clone()); idx /= alpha.len() as u64; }
+  // every history ends with a build so that the last changes are judged
+  steps.push(Step::TopDown((0..prog.n_tasks() as u32).collect()));
+  let init = vec![Some(0); prog.n_res].iter().enumerate().map(|(r, v)| if prog.owner[r].is_some() { None } else { *v }).collect();
+  Case { prog, init, steps }
+}
